@@ -414,6 +414,43 @@ class Interp(S.SeqRun):
         self.probe('raw_fk_to_missing_row_flushed')
         raise S.Poisoned()
 
+    def op_raw_log(self, a, b, c):
+        """raw SQL through the session: db.insert / db.execute are part of the session's transaction"""
+        self.raw_counter = getattr(self, 'raw_counter', 0) + 1
+        msg = 'raw%d_%d' % (self.sess_index, self.raw_counter)
+        k = c % 3
+        if k == 2:
+            # raw UPDATE of a stored row the session has not loaded
+            rows = [o for o in self.live_sorted('Log') if o.stored and o.pk is not None and o.mid not in self.handles]
+            if rows:
+                mo = rows[a % len(rows)]
+                rid = mo.pk[0]
+                desc = 'raw_log UPDATE Log SET msg=%r WHERE id=%d' % (msg, rid)
+                ok, _ = self.read(desc, lambda: self.db.execute('UPDATE Log SET msg = $msg WHERE id = $rid',
+                                                                {'msg': msg, 'rid': rid}, {}))
+                self.view.objs[mo.mid].vals['msg'] = msg
+                self.trace.append('%s.%s OK   %s' % (self.sess_index, self.op_index, desc))
+                self.probe('raw_sql_statement')
+                return
+            k = 0
+        if k == 0:
+            desc = 'raw_log db.insert(Log, msg=%r)' % msg
+            ok, rid = self.read(desc, lambda: self.db.insert('Log', msg=msg))
+        else:
+            desc = 'raw_log db.execute(INSERT INTO Log ... %r)' % msg
+            ok, rid = self.read(desc, lambda: self.db.execute('INSERT INTO Log (msg) VALUES ($msg)',
+                                                              {'msg': msg}, {}).lastrowid)
+        mid = self.new_mid()
+        mo = MObj(mid, 'Log')
+        mo.vals = {'id': rid, 'msg': msg}
+        mo.pk = (rid,)
+        mo.stored = True
+        self.view.objs[mid] = mo
+        self.trace.append('%s.%s OK   %s -> id %r' % (self.sess_index, self.op_index, desc, rid))
+        self.probe('raw_sql_statement')
+        # the statement went through prepare_connection_for_query_execution, i.e. pending changes were flushed
+        self.after_flush()
+
     def op_create_in(self, a, b, c):
         owners = [o for o in self.live_sorted() if self.schema.by_name[o.ent].sets()]
         if not owners:
@@ -908,6 +945,8 @@ class Interp(S.SeqRun):
             self.op_coll(name, a, b, c)
         elif name == 'create_in':
             self.op_create_in(a, b, c)
+        elif name == 'raw_log':
+            self.op_raw_log(a, b, c)
         elif name == 'seq_in':
             self.op_seq_in(a, b, c)
         elif name == 'new_rawfk':
@@ -947,12 +986,14 @@ def _chain(e):
     return ch(e)
 
 
-def run_case(case, scratch):
+def run_case(case, scratch, cls=None):
     c = simdb.ctx
-    run = Interp(case, scratch)
+    run = (cls or Interp)(case, scratch)
     run.cur_op_desc = 'setup'
     c.phase = 'setup'
     run.build()
+    if hasattr(run, 'before_main'):
+        run.before_main()
     n_setup = len(c.events)
     c.g = 0
     c.thread_k = {}
@@ -966,12 +1007,15 @@ def run_case(case, scratch):
         run.db.disconnect()
     except Exception:
         pass
+    if hasattr(run, 'after_main'):
+        run.after_main()
     if case.get('retag_as'):
-        # the same oracles, run under loading knobs, are C23's evidence: observed data must not depend on
-        # the loading strategy
+        # the same oracles under another regime are another property's evidence: under loading knobs C23
+        # (observed data must not depend on the loading strategy), under crash / error injection C17
+        label = case.get('retag_label', 'under-loading-knobs')
         for v in list(run.violations):
-            if v['prop'] in ('C09', 'C10', 'C11', 'C12'):
-                run.violations.append({'prop': case['retag_as'], 'key': '%s|under-loading-knobs|%s' % (case['retag_as'], v['key']),
+            if v['prop'] in tuple(case.get('retag_from') or ('C09', 'C10', 'C11', 'C12')):
+                run.violations.append({'prop': case['retag_as'], 'key': '%s|%s|%s' % (case['retag_as'], label, v['key']),
                                        'detail': v['detail'] + ' [knobs %r]' % (case.get('knobs'),)})
     main_events = [ev for ev in c.events[n_setup:]]
     digest = hsh([[ev['g'], ev['kind'], ev.get('sql'), ev.get('params'), ev.get('rows'), ev.get('fault'),
@@ -988,6 +1032,8 @@ def run_case(case, scratch):
         'probes': run.probes,
         'trace': run.trace if case.get('want_trace') else None,
         'op_calls': run.op_calls if case.get('want_op_calls') else None,
+        'calls': [[ev['g'], ev['kind'], (ev.get('sql') or '')[:40]] for ev in main_events
+                  if ev['phase'] == 'main'] if case.get('want_calls') else None,
         'states': sorted(run.states),
         'stats': {'db_calls': len(main_events)},
         'sample': {'variant': case.get('variant'), 'flush_policy': case.get('flush_policy'),
